@@ -780,6 +780,158 @@ def strip_copies(e):
     return e
 
 
+# ------------------------------------------------- provenance of a setting (C06.2 d)
+class ParamSources:
+    """Names / attribute paths of `self` the value of an expression may be read from.  Like depends_on, but a call
+    self.<helper>(<args>) is followed into the helper (its parameters bound to the argument expressions of this call
+    site, so a constant argument stays a constant) and getattr(self, <name expr>) counts as a read of self.<name> when
+    the name expression folds to a string (parameters replaced by the constants of the call site, class / module
+    tables folded).  What cannot be followed is listed in `opaque`."""
+
+    def __init__(self, idx, ci, module, max_depth=4):
+        self.idx = idx
+        self.ci = ci
+        self.module = module
+        self.folder = get_folder(idx)
+        self.max_depth = max_depth
+        self.out = set()
+        self.opaque = []
+        self._seen = set()
+
+    def context(self, defs, binds=None, unit=None, depth=0):
+        return {"defs": defs, "binds": binds or {}, "unit": unit, "depth": depth}
+
+    def _const(self, e, cx, depth=0):
+        """Python value of e in context cx (NotConstant if it has none)."""
+        if depth > 6:
+            raise NotConstant("depth")
+        if isinstance(e, ast.IfExp):
+            return self._const(e.body if self._const(e.test, cx, depth + 1) else e.orelse, cx, depth + 1)
+        if isinstance(e, ast.Compare) and len(e.ops) == 1 and isinstance(e.ops[0], (ast.Eq, ast.NotEq, ast.In, ast.NotIn)):
+            l, rr = self._const(e.left, cx, depth + 1), self._const(e.comparators[0], cx, depth + 1)
+            try:
+                v = (l == rr) if isinstance(e.ops[0], (ast.Eq, ast.NotEq)) else (l in rr)
+            except Exception as ex:
+                raise NotConstant(str(ex))
+            return v if isinstance(e.ops[0], (ast.Eq, ast.In)) else not v
+        if isinstance(e, ast.BinOp) and isinstance(e.op, ast.Add):
+            l, rr = self._const(e.left, cx, depth + 1), self._const(e.right, cx, depth + 1)
+            try:
+                return l + rr
+            except Exception as ex:
+                raise NotConstant(str(ex))
+        local = {}
+        names = {x.id for x in ast.walk(e) if isinstance(x, ast.Name)}
+        for nm in names:
+            if nm in cx["binds"]:
+                be, bcx = cx["binds"][nm]
+                local[nm] = self._const(be, bcx, depth + 1)
+            elif nm != "self" and len(cx["defs"].get(nm, [])) == 1 and cx["unit"] is not None \
+                    and nm not in cx["unit"].params:
+                local[nm] = self._const(cx["defs"][nm][0], cx, depth + 1)
+        return self.folder.fold(e, self.module, self.ci, local)
+
+    def _overridden(self, name):
+        return [c.qual for c in self.idx.subclasses(self.ci) if name in c.methods] if self.ci is not None else []
+
+    def _add(self, p, cx):
+        key = (id(cx["defs"]), p)
+        if key in self._seen:
+            return
+        self._seen.add(key)
+        self.out.add(p)
+        if "." in p:
+            self._add(p.rsplit(".", 1)[0], cx)
+        for v in cx["defs"].get(p, []):
+            self.visit(v, cx)
+
+    def _follow(self, c, m, cx):
+        if cx["depth"] >= self.max_depth:
+            self.opaque.append("%s (helper nesting too deep)" % ast.unparse(c))
+            return
+        params = [a.arg for a in m.node.args.posonlyargs + m.node.args.args]
+        if params and params[0] in ("self", "cls"):
+            params = params[1:]
+        if m.node.args.vararg or m.node.args.kwarg or any(isinstance(a, ast.Starred) for a in c.args) \
+                or any(k.arg is None for k in c.keywords) or len(c.args) > len(params):
+            self.opaque.append("%s (argument binding not modelled)" % ast.unparse(c))
+            return
+        binds = {}
+        for pn, a in zip(params, c.args):
+            binds[pn] = (a, cx)
+        for k in c.keywords:
+            binds[k.arg] = (k.value, cx)
+        dflts = m.node.args.defaults
+        for pn, dv in zip(params[len(params) - len(dflts):], dflts):
+            binds.setdefault(pn, (dv, self.context({}, unit=None)))
+        rets = [x for x in func_own_nodes(m) if isinstance(x, ast.Return) and x.value is not None]
+        if not rets or any(isinstance(x, (ast.Yield, ast.YieldFrom, ast.Await)) for x in func_own_nodes(m)):
+            self.opaque.append("%s (no plain return value)" % ast.unparse(c))
+            return
+        sub = self.context(def_exprs(m), binds, unit=m, depth=cx["depth"] + 1)
+        self._keep = getattr(self, "_keep", [])
+        self._keep.append(sub)              # keeps id(defs) unique while the walk runs
+        for x in rets:
+            self.visit(x.value, sub)
+
+    def visit(self, e, cx):
+        if e is None:
+            return
+        if isinstance(e, ast.Call):
+            f = e.func
+            if isinstance(f, ast.Name) and f.id == "getattr" and 2 <= len(e.args) <= 3 and not e.keywords \
+                    and "getattr" not in cx["defs"] and "getattr" not in cx["binds"]:
+                recv = e.args[0]
+                if isinstance(recv, ast.Name) and recv.id in cx["binds"]:
+                    recv = cx["binds"][recv.id][0]
+                if isinstance(recv, ast.Name) and recv.id == "self":
+                    try:
+                        nm = self._const(e.args[1], cx)
+                    except NotConstant as ex:
+                        nm = None
+                    if isinstance(nm, bytes):
+                        nm = None
+                    if isinstance(nm, str):
+                        self._add("self." + nm, cx)
+                    else:
+                        self.opaque.append("%s (attribute name is not a constant)" % ast.unparse(e))
+                    for a in e.args[2:]:
+                        self.visit(a, cx)
+                    return
+            if isinstance(f, ast.Attribute) and isinstance(f.value, ast.Name) and f.value.id == "self" \
+                    and self.ci is not None:
+                m = self.ci.lookup(f.attr)
+                if m is not None and self.ci.lookup_attr(f.attr) is None:
+                    ov = self._overridden(f.attr)
+                    if ov:
+                        self.opaque.append("%s (overridden in %s)" % (ast.unparse(e), ", ".join(ov)))
+                    else:
+                        self._add("self." + f.attr, cx)
+                        self._follow(e, m, cx)
+                    return
+        if isinstance(e, ast.Attribute):
+            p = attr_path(e)
+            if p:
+                root = p.split(".", 1)[0]
+                if root in cx["binds"]:
+                    self.visit(cx["binds"][root][0], cx["binds"][root][1])
+                self._add(p, cx)
+                return
+        if isinstance(e, ast.Name):
+            if e.id in cx["binds"]:
+                be, bcx = cx["binds"][e.id]
+                self.visit(be, bcx)
+                return
+            self._add(e.id, cx)
+            return
+        if isinstance(e, ast.Lambda):
+            self.visit(e.body, cx)
+            return
+        for ch in ast.iter_child_nodes(e):
+            if isinstance(ch, (ast.expr, ast.comprehension, ast.keyword)):
+                self.visit(ch, cx)
+
+
 # --------------------------------------------------------------------- rules
 def run(ctx: Context):
     idx = ctx.idx
@@ -945,9 +1097,15 @@ def run(ctx: Context):
             for f in (bu, inner):
                 for k, v in def_exprs(f).items():
                     defs.setdefault(k, []).extend(v)
-            dep = depends_on(inner, e1, defs=defs)
-            ok = any(d.endswith("encoding_param_happy") for d in dep) and not any(
-                d.endswith("encoding_param_k") or d.endswith("encoding_param_n") for d in dep)
+            ps = ParamSources(idx, bu.cls, inner.module)
+            ps.visit(e1, ps.context(defs))
+            dep = ps.out
+            wrong = any(d.endswith("encoding_param_k") or d.endswith("encoding_param_n") for d in dep)
+            ok = any(d.endswith("encoding_param_happy") for d in dep) and not wrong
+            if not wrong and ps.opaque:
+                # the setting is read through something that cannot be followed: no verdict either way
+                raise AnalysisError("element 1 of the encoding-parameter tuple (%s) is read through %s: which setting "
+                                    "it is cannot be decided" % (src(inner, e1), "; ".join(ps.opaque)))
             r.require(ok, inner, inner.loc(t), "element 1 of the encoding-parameter tuple (%s) is not the "
                       "'happy' setting (depends on %s)" % (src(inner, e1), sorted(x for x in dep if "param" in x)))
 
